@@ -43,8 +43,8 @@ func (r *rng) next() uint64 {
 	z = (z ^ (z >> 27)) * 0x94d049bb133111eb
 	return z ^ (z >> 31)
 }
-func (r *rng) intn(n int) int     { return int(r.next() % uint64(n)) }
-func (r *rng) chance(p int) bool  { return r.intn(100) < p }
+func (r *rng) intn(n int) int      { return int(r.next() % uint64(n)) }
+func (r *rng) chance(p int) bool   { return r.intn(100) < p }
 func pick[T any](r *rng, xs []T) T { return xs[r.intn(len(xs))] }
 
 type line struct {
@@ -278,12 +278,12 @@ type linkSt struct {
 }
 
 type kroute struct {
-	typ, scope     int
-	src            uint32
-	proto          int
-	onlink         bool
-	gw             uint32
-	ifx, mtu       int
+	typ, scope int
+	src        uint32
+	proto      int
+	onlink     bool
+	gw         uint32
+	ifx, mtu   int
 }
 
 func (k kroute) coq() string {
@@ -306,8 +306,9 @@ type hist struct {
 	tags   map[string]bool
 	// statistics for the non-triviality rule
 	applies, okApplies, failedApplies, hits, churn, foreign, conflicts int
-	lastConnFail                                                      bool
-	hot                                                               [][2]int
+	lastConnFail                                                       bool
+	hot                                                                [][2]int
+	lastChurned                                                        string
 }
 
 func (h *hist) emit(op string, human string) {
@@ -576,7 +577,17 @@ func (h *hist) linkChurn() {
 	name := pick(r, ifNames)
 	l, ok := h.links[name]
 	h.churn++
+	h.lastChurned = name
 	switch {
+	case ok && l.running && r.chance(25):
+		// quick flap: down (kernel flushes the routes) and up again; the monitor reports both
+		h.setLink(name, true, false, false)
+		h.flush(l.idx)
+		if r.chance(85) {
+			h.tell(name)
+		}
+		h.setLink(name, true, true, false)
+		h.tags["link-flap"] = true
 	case !ok:
 		h.setLink(name, true, r.chance(85), false)
 	case r.chance(25):
@@ -630,6 +641,9 @@ func (h *hist) genPlan() []failItem {
 			p = append(p, failItem{op: "lbn:" + name, coq: fmt.Sprintf("(NLinkByName \"%s\")", name), n: nth, kind: pick(r, []string{"FErr", "FNotFound"})})
 		case 3:
 			name := pick(r, ifNames)
+			if h.lastChurned != "" && r.chance(70) {
+				name = h.lastChurned
+			}
 			if l, ok := h.links[name]; ok {
 				p = append(p, failItem{op: fmt.Sprintf("rlif:%d", l.idx), coq: fmt.Sprintf("(NRouteListIf %d)", l.idx), n: nth, kind: pick(r, []string{"FErr", "FErr", "FEintr"})})
 			}
@@ -639,6 +653,16 @@ func (h *hist) genPlan() []failItem {
 		default:
 			cid, prio := h.planKey()
 			p = append(p, failItem{op: fmt.Sprintf("del:%d/%d", cid, prio), coq: fmt.Sprintf("(NDel (rk %d %d))", cid, prio), n: nth, kind: "FErr"})
+		}
+	}
+	// half of the time every failure also hits the retry (the second attempt's call of the same operation)
+	if r.chance(50) {
+		for _, f := range p {
+			if f.n == 0 {
+				g := f
+				g.n = 1
+				p = append(p, g)
+			}
 		}
 	}
 	// keep the first item for each (op, n)
@@ -718,7 +742,85 @@ func (h *hist) apply(plan []failItem) {
 	h.sample = append(h.sample, fmt.Sprintf("Apply(fail=%v) -> err=%v kernel=%v", hs, err != nil, human))
 }
 
-func runHistory(r *rng, cfg config, nops int) line {
+func (h *hist) ensureUp(name string) {
+	if l, ok := h.links[name]; !ok || !l.running {
+		h.setLink(name, true, true, false)
+	}
+	h.tell(name)
+}
+
+func (h *hist) update(class routetable.RouteClass, name string, cid, prio int) {
+	t, c := h.genTarget(name, cid, prio)
+	h.rt.RouteUpdate(class, name, t)
+	h.emit(fmt.Sprintf("ORouteUpdate %d \"%s\" (rk %d %d) %s", int(class), name, cid, prio, c),
+		fmt.Sprintf("RouteUpdate(%v, %s, %s/%d %s gw=%v proto=%d)", class, name, cidrStr(cid), prio, t.Type, t.GW, t.Protocol))
+}
+
+func (h *hist) remove(class routetable.RouteClass, name string, cid, prio int) {
+	h.rt.RouteRemove(class, name, routetable.RouteKey{CIDR: cidrOf(cid), Priority: prio})
+	h.emit(fmt.Sprintf("ORouteRemove %d \"%s\" (rk %d %d)", int(class), name, cid, prio),
+		fmt.Sprintf("RouteRemove(%v, %s, %s/%d)", class, name, cidrStr(cid), prio))
+}
+
+// directed opening: a route is programmed, its interface flaps (the kernel drops the route), both events are
+// reported, and the per-interface route listing of the following Apply fails.
+func (h *hist) skeletonFlapListFailure() {
+	r := h.r
+	h.tags["skeleton:flap-list-failure"] = true
+	name := pick(r, ifNames)
+	h.ensureUp(name)
+	cid, prio := h.pickKey()
+	h.update(pick(r, classes), name, cid, prio)
+	h.apply(nil)
+	l := h.links[name]
+	h.setLink(name, true, false, false)
+	h.flush(l.idx)
+	h.tell(name)
+	h.setLink(name, true, true, false)
+	h.tell(name)
+	kind := pick(r, []string{"FErr", "FErr", "FEintr"})
+	var p []failItem
+	if kind == "FEintr" {
+		for j := 0; j < 5; j++ {
+			p = append(p, failItem{op: fmt.Sprintf("rlif:%d", l.idx), coq: fmt.Sprintf("(NRouteListIf %d)", l.idx), n: j, kind: kind})
+		}
+	} else {
+		p = append(p, failItem{op: fmt.Sprintf("rlif:%d", l.idx), coq: fmt.Sprintf("(NRouteListIf %d)", l.idx), n: 0, kind: kind})
+	}
+	h.apply(p)
+}
+
+// directed opening: a destination moves from one interface to a better-class one that has just come up, the
+// RouteReplace fails in both attempts, then nobody wants the destination any more.
+func (h *hist) skeletonMoveThenFail() {
+	r := h.r
+	h.tags["skeleton:move-then-fail"] = true
+	y := pick(r, ifNames)
+	x := pick(r, ifNames)
+	if x == y {
+		return
+	}
+	h.ensureUp(y)
+	if l, ok := h.links[x]; ok && l.running {
+		h.setLink(x, true, false, false)
+		h.flush(l.idx)
+		h.tell(x)
+	}
+	cid, prio := h.pickKey()
+	h.update(routetable.RouteClassVXLANTunnel, y, cid, prio)
+	h.update(routetable.RouteClassLocalWorkload, x, cid, prio)
+	h.apply(nil)
+	h.ensureUp(x)
+	op, coq := fmt.Sprintf("rep:%d/%d", cid, prio), fmt.Sprintf("(NReplace (rk %d %d))", cid, prio)
+	h.apply([]failItem{{op: op, coq: coq, n: 0, kind: "FErr"}, {op: op, coq: coq, n: 1, kind: "FErr"}})
+	h.remove(routetable.RouteClassLocalWorkload, x, cid, prio)
+	h.remove(routetable.RouteClassVXLANTunnel, y, cid, prio)
+	h.apply(nil)
+}
+
+var fixA, fixB bool // what the tree under test does (see Model.v c_fixA / c_fixB); set by probe()
+
+func newHist(r *rng, cfg config) *hist {
 	dp := mocknetlink.New()
 	dp.ExistingTables.Add(cfg.table)
 	mt := mocktime.New()
@@ -734,9 +836,47 @@ func runHistory(r *rng, cfg config, nops int) line {
 		routetable.WithRouteCleanupGracePeriod(time.Duration(cfg.grace)*time.Second),
 		routetable.WithNetlinkHandleShim(d.newHandle),
 	)
-	h := &hist{r: r, cfg: cfg, dp: dp, mt: mt, rt: rt, d: d, links: map[string]*linkSt{}, gen: map[string]int{},
+	return &hist{r: r, cfg: cfg, dp: dp, mt: mt, rt: rt, d: d, links: map[string]*linkSt{}, gen: map[string]int{},
 		toTell: map[string]bool{}, tags: map[string]bool{"cfg:" + cfg.name: true}}
+}
 
+// probe runs the two directed scenarios once on the tree under test to see which variant of resyncIface it has.
+func probe() {
+	cfg := configs()[0]
+	h := newHist(&rng{s: 12345}, cfg)
+	h.ensureUp("cali1")
+	h.update(routetable.RouteClassLocalWorkload, "cali1", 0, 0)
+	h.apply(nil)
+	l := h.links["cali1"]
+	h.setLink("cali1", true, false, false)
+	h.flush(l.idx)
+	h.tell("cali1")
+	h.setLink("cali1", true, true, false)
+	h.tell("cali1")
+	h.apply([]failItem{{op: fmt.Sprintf("rlif:%d", l.idx), n: 0, kind: "FErr"}})
+	fixA = len(dp(h)) == 1
+
+	h = newHist(&rng{s: 12345}, cfg)
+	h.ensureUp("eth0")
+	h.update(routetable.RouteClassVXLANTunnel, "eth0", 0, 0)
+	h.update(routetable.RouteClassLocalWorkload, "cali1", 0, 0)
+	h.apply(nil)
+	h.ensureUp("cali1")
+	h.apply([]failItem{{op: "rep:0/0", n: 0, kind: "FErr"}, {op: "rep:0/0", n: 1, kind: "FErr"}})
+	h.remove(routetable.RouteClassLocalWorkload, "cali1", 0, 0)
+	h.remove(routetable.RouteClassVXLANTunnel, "eth0", 0, 0)
+	h.apply(nil)
+	fixB = len(dp(h)) == 0
+}
+
+func dp(h *hist) map[string]netlink.Route { return h.dp.RouteKeyToRoute }
+
+func runHistory(r *rng, cfg config, nops int) line {
+	return newHist(r, cfg).run(nops)
+}
+
+func (h *hist) run(nops int) line {
+	r, cfg, mt := h.r, h.cfg, h.mt
 	// starting kernel state: some links, some routes of other software, some stale routes
 	for _, n := range ifNames {
 		if r.chance(70) {
@@ -748,6 +888,12 @@ func runHistory(r *rng, cfg config, nops int) line {
 	}
 	for i := r.intn(5); i > 0; i-- {
 		h.outsideRoute()
+	}
+	switch sk := r.intn(12); sk {
+	case 0:
+		h.skeletonFlapListFailure()
+	case 1:
+		h.skeletonMoveThenFail()
 	}
 	for i := 0; i < nops; i++ {
 		switch k := r.intn(100); {
@@ -823,8 +969,8 @@ func runHistory(r *rng, cfg config, nops int) line {
 		tags = append(tags, t)
 	}
 	sort.Strings(tags)
-	coq := fmt.Sprintf("mkcase (mkcfg %s %d %d %d %d) [%s] [%s]", cfg.coqPol, cfg.table, cfg.defProto, cfg.src, cfg.grace,
-		strings.Join(h.ops, "; "), strings.Join(h.obs, "; "))
+	coq := fmt.Sprintf("mkcase (mkcfg %s %d %d %d %d %s %s) [%s] [%s]", cfg.coqPol, cfg.table, cfg.defProto, cfg.src, cfg.grace,
+		coqBool(fixA), coqBool(fixB), strings.Join(h.ops, "; "), strings.Join(h.obs, "; "))
 	return line{Coq: coq, NT: h.applies >= 2 && (h.hits > 0 || h.churn > 0 || h.foreign > 0),
 		Key:    cfg.name + "|" + strings.Join(h.ops, ";"),
 		Sample: map[string]any{"config": cfg.name, "trace": h.sample}, Tags: tags}
@@ -837,8 +983,10 @@ func main() {
 	logrus.SetOutput(io.Discard)
 	logrus.SetLevel(logrus.ErrorLevel)
 	gomega.RegisterFailHandler(func(msg string, _ ...int) { panic("mock assertion failed: " + msg) })
+	probe()
 	r := &rng{s: *seed}
 	enc := json.NewEncoder(os.Stdout)
+	_ = enc.Encode(map[string]any{"stats": map[string]any{"tree_has_fixA": fixA, "tree_has_fixB": fixB}})
 	cfgs := configs()
 	for i := 0; i < *n; i++ {
 		cfg := cfgs[r.intn(len(cfgs))]
